@@ -3,7 +3,7 @@
     [run] is [fold_left step_state] from [init]; [log] is the ghost history of all inputs and
     outputs; valid, vals, proposer, mkblock, cfg and me are arbitrary. *)
 From Coq Require Import List ZArith NArith Bool.
-From Kardia Require Import C03.Node C03.Spec C03.ProofsMono C03.ProofsInv C03.ProofsValid C03.ProofsLock C03.Proofs C03.Open C03.ToC01.
+From Kardia Require Import C03.Node C03.Spec C03.ProofsMono C03.ProofsInv C03.ProofsValid C03.ProofsLock C03.Proofs C03.Open C03.ToC01 C03.ProofsHalt.
 Import ListNotations.
 Local Open Scope N_scope.
 
@@ -115,3 +115,15 @@ Theorem C03_polround_check_is_dead :
     prop (recv_proposal proposer p s) = Some p.
 Proof. exact proposal_polround_unchecked. Qed.
 Print Assumptions C03_polround_check_is_dead.
+
+(** REFUTED (known finding "halt-same-hash-other-body"): "a validator fed only honest-looking inputs
+    (well-signed votes for nil or for the full id — hash and parts header — of a block that passes
+    validation, no validator voting twice in a slot, only valid blocks) never runs into a Go panic".
+    Witness (ProofsHalt.v, computed on the model): 4 validators of power 10, only the proposer
+    faulty; the node holds the body (hash 1, parts 1), the others prevote and precommit the equally
+    valid body (hash 1, parts 2); the node locks its block under an EMPTY part set with header 2,
+    precommits (1,2) and halts in finalizeCommit/SaveBlock on the incomplete part set.  The code
+    matches the polka/commit block with the block in hand by hash alone. *)
+Theorem C03_no_halt_under_one_byzantine_proposer_refuted : ~ C03_no_halt_statement.
+Proof. exact no_halt_refuted. Qed.
+Print Assumptions C03_no_halt_under_one_byzantine_proposer_refuted.
